@@ -28,6 +28,7 @@ import (
 	utls "github.com/refraction-networking/utls"
 	fingerproxy "github.com/wi1dcard/fingerproxy"
 	"github.com/wi1dcard/fingerproxy/pkg/http2"
+	"github.com/wi1dcard/fingerproxy/pkg/metadata"
 	"github.com/wi1dcard/fingerproxy/pkg/proxyserver"
 	"github.com/wi1dcard/fingerproxy/pkg/reverseproxy"
 )
@@ -348,6 +349,16 @@ func NewWorld(t testingT, plan *Plan) *World {
 		}
 	}
 
+	metadata.VerifYield = nil
+	if plan.CaptureFences {
+		metadata.VerifYield = func(site string) {
+			w.mu.Lock()
+			w.captureSeq++
+			k := w.captureSeq
+			w.mu.Unlock()
+			w.Yield(fmt.Sprintf("%s#%04d", site, k))
+		}
+	}
 	proxyserver.VerifYield = nil
 	if plan.Fences {
 		proxyserver.VerifYield = func(site, remote string) {
@@ -957,6 +968,14 @@ func (w *World) startAllowed(c *Client) bool {
 	}
 	if c.Plan.StartAfterCancel && !w.Cancelled {
 		return false
+	}
+	for _, id := range c.Plan.StartAfterPing {
+		w.mu.Lock()
+		ok := w.Clients[id].Pinged
+		w.mu.Unlock()
+		if !ok {
+			return false
+		}
 	}
 	for _, id := range c.Plan.StartAfterDone {
 		if !w.Clients[id].Done() {
